@@ -21,7 +21,16 @@ EXTENDS Collect, Json, Randomization
 (*                      (quick); rounds_deep: the same with 1 2 3 5 Never; *)
 (*                      rounds3: 3 rounds, n <= 2, 1 3 5 Never, no         *)
 (*                      overlapping call (both thorough)                   *)
+(*   Collect_late.cfg   LATENESS of stragglers, exhaustively: 2 rounds,     *)
+(*   Collect_late_deep.cfg  n <= 2, clocks that ignore their context and    *)
+(*                      answer 90, 7200 or 259200 units after their round's *)
+(*                      start (late_deep, thorough: 3, 90, 7200, 259200 or  *)
+(*                      3000000: just after the deadline ... five weeks     *)
+(*                      after it), one or two of them per round, in one or  *)
+(*                      both rounds; NoLeak is decided on behaviours that   *)
+(*                      last until the last one has returned                *)
 (*   Collect_rgen.cfg   -simulate: histories of up to 3 rounds, n <= 3,     *)
+(*                      completion times 1 2 3 5 and the lateness scale,    *)
 (*                      printed at their end (EmitHist) for the harness     *)
 (*   Collect_big.cfg    -simulate from InitBig: one round with 5 .. 64      *)
 (*                      clocks of which a prefix / suffix / random subset   *)
@@ -65,7 +74,8 @@ SpecGen == Init /\ [][NextGen]_vars
 (* the others do.  The behaviour from there on is Collect's Next.           *)
 BigN    == {5, 8, 9, 12, 17, 33, 64}
 Edges   == {0, 1, 2, 3, 4, 5, 7, 8, 9, 11, 15, 16, 17, 31, 32, 33, 48, 63, 64}
-BKinds  == {"late", "vlate", "never", "mix"}     \* blocked: 3 | 5 | Never | any of these
+LateVals == {90, 7200, 259200, 3000000}          \* the lateness scale of the generators (units after the start)
+BKinds  == {"late", "vlate", "xlate", "never", "mix"}   \* blocked: 3 | 5 | each one of LateVals | Never | any of these
 FKinds  == {"early", "mix"}                      \* others: 1 ok | 1 or 2, ok or err
 BlockedSet(m, shape, p) ==
   CASE shape = "prefix" -> 1 .. p
@@ -73,7 +83,8 @@ BlockedSet(m, shape, p) ==
     [] OTHER            -> RandomSubset(p, 1 .. m)
 BlockedD(bk) ==
   CASE bk = "late" -> 3 [] bk = "vlate" -> 5 [] bk = "never" -> Never
-    [] OTHER -> RandomElement({3, 5, Never})
+    [] bk = "xlate" -> RandomElement(LateVals)
+    [] OTHER -> RandomElement({3, 5, Never} \cup LateVals)
 InitBig ==
   /\ rnd = 1
   /\ n \in BigN
